@@ -54,5 +54,5 @@ WouldMatter ==
                    /\ Unauthorised(o.sh, AttackerKeys)
                    /\ View(ResolveRef((store \ {o}) \cup {Authorise(o)})) # res
 
-EmitC01 == PrintT("CASE " \o ToJson([ops |-> OpsJson, res |-> res, na |-> IF WouldMatter THEN 1 ELSE 0, legit |-> LegitJson]))
+EmitC01 == PrintT("CASE " \o ToJson([ops |-> OpsJson, res |-> res, ao |-> AoNow, na |-> IF WouldMatter THEN 1 ELSE 0, legit |-> LegitJson]))
 =============================================================================
